@@ -241,3 +241,34 @@ theorem vHatRat_eq_spec (d : List Rat) (h : Nat) : vHatRat d h = SV.Spec.DM.vHat
   rw [this]
   ring
 end SV.Model.DM
+
+/-! ### HG density given the parameters: the one-sided geometric lag sum -/
+namespace SV.Spec.DM
+
+/-- Σ_{k=1}^{m} ρ^k, the one-sided lag sum of the model autocorrelations -/
+def lagSum (rho : Rat) (m : Nat) : Rat := ((List.range m).map fun j => rho ^ (j + 1)).sum
+
+theorem lagSum_succ (rho : Rat) (m : Nat) : lagSum rho (m + 1) = lagSum rho m + rho ^ (m + 1) := by
+  simp [lagSum, List.range_succ]
+
+theorem lagSum_nonneg {rho : Rat} (h : 0 ≤ rho) (m : Nat) : 0 ≤ lagSum rho m := by
+  induction m with
+  | zero => simp [lagSum]
+  | succ k ih => rw [lagSum_succ]; have := pow_nonneg h (k + 1); linarith
+
+theorem lagSum_strictMono {rho : Rat} (h : 0 < rho) {m n : Nat} (hmn : m < n) : lagSum rho m < lagSum rho n := by
+  induction n with
+  | zero => omega
+  | succ k ih =>
+    rw [lagSum_succ]
+    have hp := pow_pos h (k + 1)
+    rcases Nat.lt_succ_iff_lt_or_eq.mp hmn with hlt | heq
+    · have := ih hlt; linarith
+    · subst heq; linarith
+
+theorem lagSum_closed (rho : Rat) (m : Nat) : (1 - rho) * lagSum rho m = rho - rho ^ (m + 1) := by
+  induction m with
+  | zero => simp [lagSum]
+  | succ k ih => rw [lagSum_succ, mul_add, ih]; ring
+
+end SV.Spec.DM
